@@ -332,3 +332,50 @@ def check_slot_loops(rep, prog, rule, cls_pred, min_alive=8):
                 rep.violation(rule, prog, fn, l, "%s: slot loop bounded by the live count" % fn["qn"], "%s: %s" % (fn["qn"], why))
     if total < min_alive:
         raise AnalysisBroken("slot-loop lint recognises only %d index loops over node_lst_/face_lst_ in the whole program (expected >= %d)" % (total, min_alive))
+
+
+def extremum_updates(fn):
+    """Running-extremum updates of local/member variables, in any of the idioms
+         if(c < m) m = c;      if(m > c) m = c;      m = std::min(m, c);      m = (c < m) ? c : m;
+    (and the mirror images for maxima). Yields (statement node, target expression m, coordinate expression c, 'min'|'max')."""
+    if not isinstance(fn.get("body"), dict):
+        return
+    def same(a, b):
+        return render(strip(a)) == render(strip(b))
+    for n in walk(fn["body"]):
+        k = n.get("k")
+        if k == "IfStmt" and n.get("else") is None:
+            c = strip(n["cond"])
+            th = n["then"]
+            sts = th.get("c", []) if th.get("k") == "CompoundStmt" else [th]
+            if c.get("k") == "BinaryOperator" and c.get("op") in ("<", ">", "<=", ">=") and len(sts) == 1:
+                a = strip(sts[0])
+                if a.get("k") in ("BinaryOperator", "CXXOperatorCallExpr") and a.get("op") == "=":
+                    tgt, val = (a["c"][0], a["c"][1]) if a["k"] == "BinaryOperator" else (a["c"][1], a["c"][2])
+                    l, r = c["c"][0], c["c"][1]
+                    less = c["op"] in ("<", "<=")
+                    if same(val, l) and same(tgt, r):
+                        yield n, tgt, val, ("min" if less else "max")
+                    elif same(val, r) and same(tgt, l):
+                        yield n, tgt, val, ("max" if less else "min")
+        elif k in ("BinaryOperator", "CXXOperatorCallExpr") and n.get("op") == "=":
+            tgt, val = (n["c"][0], n["c"][1]) if k == "BinaryOperator" else (n["c"][1], n["c"][2])
+            v = strip(val)
+            if v.get("k") == "CallExpr" and v.get("callee") in ("std::min", "std::max") and len(call_args(v)) == 2:
+                a, b = call_args(v)
+                kind = v["callee"][-3:]
+                if same(a, tgt):
+                    yield n, tgt, b, kind
+                elif same(b, tgt):
+                    yield n, tgt, a, kind
+            elif v.get("k") == "ConditionalOperator":
+                c = strip(v["c"][0])
+                if c.get("k") == "BinaryOperator" and c.get("op") in ("<", ">", "<=", ">="):
+                    l, r = c["c"][0], c["c"][1]
+                    t_, f_ = v["c"][1], v["c"][2]
+                    less = c["op"] in ("<", "<=")
+                    # (x < m) ? x : m   -> min ;  (x > m) ? x : m -> max
+                    if same(f_, tgt) and same(t_, l) and same(r, tgt):
+                        yield n, tgt, t_, ("min" if less else "max")
+                    elif same(f_, tgt) and same(t_, r) and same(l, tgt):
+                        yield n, tgt, t_, ("max" if less else "min")
